@@ -160,7 +160,7 @@ def run_mode_case(acc: Acc, case):
     p, s = case["power"], case["soc"]
     emulated = mode in (OperationMode.ECO_CHARGE, OperationMode.ECO_DISCHARGE)
     if emulated or case["prior"] not in ("off", "zeros", "type0-off"):
-        acc.nontrivial(variant, int(mode), p, s, case["prior"], case.get("others"), repr(case.get("before")), repr(case.get("info_history")))
+        acc.nontrivial(variant, int(mode), p, s, case["prior"], case.get("others"), repr(case.get("before")), repr(case.get("info_history")), repr(case.get("reader")))
     modes = run_sync(inv.get_operation_modes(True))
     if mode not in modes:
         return []
@@ -187,7 +187,17 @@ def run_mode_case(acc: Acc, case):
         except rs.Undecodable:
             pass
     try:
-        run_sync(inv.set_operation_mode(mode, p, s))
+        if case.get("reader"):
+            # a monitoring call runs on the same object while the setter is at work (started `offset` scheduling steps later,
+            # requests served one at a time in arrival order)
+            rname, offset = case["reader"]
+            reader = {"eco_mode_1": lambda: inv.read_setting("eco_mode_1"), "get_mode": lambda: inv.get_operation_mode(),
+                      "settings": lambda: inv.read_settings_data(), "eco_mode_2": lambda: inv.read_setting("eco_mode_2")}[rname]
+            _res, exc_main = siminv.run_overlapping(inv, lambda: inv.set_operation_mode(mode, p, s), [(reader, offset)])
+            if exc_main is not None:
+                raise exc_main
+        else:
+            run_sync(inv.set_operation_mode(mode, p, s))
     except ValueError as ex:
         acc.cls("set-raised-ValueError")
         if emulated and case["prior"] not in ("garbage", "ones") and "bad" not in case["prior"]:
@@ -334,6 +344,12 @@ def mode_job(job):
                     if mode in (OperationMode.ECO_CHARGE, OperationMode.ECO_DISCHARGE) and others == prior and prior in ("off", "type0-on") and variant.startswith("ET"):
                         for ih in ([[1, "silent"]], [[2, "silent"]], [[1, "busy"]], [[0, "silent"]], [[1, "silent"], [2, "busy"]]):
                             _apply(acc, dict(case, info_history=ih), run_mode_case)
+                    if mode in (OperationMode.ECO_CHARGE, OperationMode.ECO_DISCHARGE, OperationMode.ECO) and others == prior and (p, s) == grid[2 if mode != OperationMode.ECO else 0] \
+                            and not variant.startswith("DT"):
+                        # a monitoring call overlaps the setter on the same object, at every start offset
+                        for rname in ("eco_mode_1", "get_mode", "settings", "eco_mode_2"):
+                            for offset in range(0, 12) if rname != "settings" else (0, 2, 5):
+                                _apply(acc, dict(case, reader=[rname, offset]), run_mode_case)
                     if len(acc.samples) < 1 and mode == OperationMode.ECO_CHARGE and prior == "unset":
                         acc.sample(case)
     return acc
